@@ -227,6 +227,7 @@ class Repo:
                         m = Module(name, path, rel, source)
                     except SyntaxError as e:
                         raise AnalysisError('cannot parse %s: %s' % (rel, e))
+                    m.repo = self
                     self.modules[name] = m
                     self._index(m)
 
@@ -876,11 +877,12 @@ COMMUTATIVE_CALLS = {'np.logaddexp', 'np.minimum', 'np.maximum', 'numpy.logaddex
                      'np.logical_and', 'np.logical_or'}
 
 
-def canon(expr, params=(), rename=None):
+def canon(expr, params=(), rename=None, consts=None):
     """Nested-tuple normal form: + and * flattened and sorted, a-b as a+(-b), commutative
     calls sorted, parameters replaced by their position, other names kept."""
     params = list(params)
     rename = rename or {}
+    consts = consts or {}
 
     def c(e):
         if isinstance(e, ast.Name):
@@ -888,6 +890,8 @@ def canon(expr, params=(), rename=None):
                 return ('sym', rename[e.id])
             if e.id in params:
                 return ('param', params.index(e.id))
+            if e.id in consts:
+                return c(consts[e.id])
             return ('name', e.id)
         if isinstance(e, ast.Constant):
             v = e.value
